@@ -14,7 +14,8 @@ VERIF = gen.VERIF
 
 # failed obligation (regex on the obligation id) -> finder test in replay/finder.rs
 FINDERS = [
-    (r'TextSelection::test(/|_set/)|TextSelectionSet::test|toggle_negate|toggle_all|with_limit|rightmost|leftmost', 'find_rel_pair'),
+    (r'TextSelectionSet::test|TextSelection::test_set|rightmost|leftmost', 'find_rel_sets'),
+    (r'TextSelection::test(/|_set/)|toggle_negate|toggle_all|with_limit', 'find_rel_pair'),
     (r'TextSelection::(textselection_by_offset|beginaligned_cursor|relative_|absolute_offset)', 'find_relative_offsets'),
     (r'subselectors__resolve|AnnotationStore::annotate', 'find_annotate_failures'),
     (r'subselectors__', 'find_subselectors'),
@@ -23,7 +24,7 @@ FINDERS = [
     (r'Handles', 'find_handles_setops'),
     (r'strip_annotation_ids|strip_data_ids|IdMap<HandleType>::(new|default|with_resolve_temp_ids|set_resolve_temp_ids)', 'find_strip_ids'),
     (r'::reindex|::gaps', 'find_reindex_ids'),
-    (r'SegmentationIter', 'find_segmentation'),
+    (r'SegmentationIter|::segmentation', 'find_segmentation'),
     (r'utf8byte|create_milestones', 'find_utf8'),
     (r'TextSelectionIter', 'find_index_walk'),
     (r'RelationMap|RelationBTreeMap|StoreCallbacks<(Annotation|AnnotationData|DataKey|TextResource|AnnotationDataSet)>|StoreFor<(AnnotationData|DataKey)>|preremove__unindex|AnnotationDataSet::|Annotation::remove_data|AnnotationStore::remove_data|AnnotationStore::remove_key', 'find_store_consistency'),
